@@ -93,7 +93,9 @@ Proof. exact unique_sites_b_sound. Qed.
 
 (* ---- the clauses of Corr/C05.spec_other, for an implementation log that matches the model's ----
    (all clauses of the per-Open disjunction except the generator's own site table [c_sites]); the root is neither ""
-   nor "<yaml>" ([C05.anonymous_name]: for "<yaml>" the model deviates from environment.go, see Properties/C05.v) *)
+   nor "<yaml>" ([C05.anonymous_name]; for an anonymous root the model follows environment.go CopyForEnv since the
+   root-name repair, but [C05.root_ok]'s reachability clause is proved only as the weaker
+   C05_open_inputs_ok clause "the root told is never anonymous unless it is the provider's own environment") *)
 Theorem C05_matched_open_oracle_clauses : forall fuel W name d lg p i r c,
   C05.anonymous_name name = false -> unique_provider_sites W name d ->
   log_matches (ob_log (run fuel W name d)) lg = true ->
